@@ -59,7 +59,7 @@ prop("C16", title="compile-time rules", impl="rustc",
               "coq/Static.v checks signature tables only; Rust's borrow checker, auto-trait derivation and variance are NOT modelled"])
 prop("C17", title="ill-behaved safe callbacks", equiv=["EquivRetain.loop_equiv", "EquivRetain.retain_equiv", "EquivRetain.loop_equivD", "EquivRetain.dedup_by_equiv"], trusted=[HAND, EXTR, UBDEF])
 prop("C18", title="allocation failure", equiv=[], quick_n=480, thorough_n=3000, profiles="dr", trusted=[HAND, EXTR])
-prop("C19", title="serde", equiv=["EquivSerde.map_size_hint_equiv"], impl="serde",
+prop("C19", title="serde", equiv=["EquivSerde.map_size_hint_equiv", "EquivSerde.inplace_reservation", "EquivSerde.fresh_reservation", "EquivSerde.upfront_reservation_bounded"], impl="serde",
      trusted=["the two visitor loops of src/serde.rs are not modelled in Coq; they are exercised by the harness with a recording serializer and a scripted SeqAccess"])
 
 def coq_side(ctx, P):
